@@ -174,6 +174,28 @@ fn one_history(run: &Run, case: u64) {
         descs.push(rep.desc.clone());
         let replay = json!({"case": case, "step": step, "history": descs});
         let after = fmt06::dir_bytes(&w.arch);
+        // now and then: someone else's GC_LOCK is in place (another collector at work, or one
+        // that was killed) when a delete, gc or dry run is attempted; it must remove nothing,
+        // that lock least of all
+        if !w.sources.is_empty() && rng.chance(1, 5) {
+            std::fs::write(w.arch.join("GC_LOCK"), b"{}\n").unwrap();
+            let locked_before = fmt06::dir_bytes(&w.arch);
+            let ids: Vec<u32> = if rng.chance(1, 2) { Vec::new() } else { vec![*rng.pick(&w.sources.keys().copied().collect::<Vec<_>>())] };
+            let dry = rng.chance(1, 2);
+            let out = cs::delete(cs::local(&w.arch), &w.arch, &ids, dry, false);
+            let locked_after = fmt06::dir_bytes(&w.arch);
+            run.count("delete_attempts_under_a_foreign_lock", 1);
+            if locked_after != locked_before {
+                let gone: Vec<&String> = locked_before.keys().filter(|k| !locked_after.contains_key(*k)).take(3).collect();
+                run.violation(
+                    if !locked_after.contains_key("GC_LOCK") { "delete-removed-foreign-lock" } else { "delete-under-foreign-lock-changed-archive" },
+                    format!("after {}: delete {ids:?} dry={dry} with someone else's GC_LOCK present returned {} and removed {gone:?}", rep.desc, out.describe()),
+                    json!({"case": case, "step": step, "history": descs, "locked_delete": ids, "dry": dry}),
+                );
+                return;
+            }
+            std::fs::remove_file(w.arch.join("GC_LOCK")).unwrap();
+        }
         match rep.kind {
             StepKind::Backup | StepKind::Interrupted => {
                 if rep.kind == StepKind::Interrupted {
@@ -564,7 +586,7 @@ pub fn run(tier: Tier, replay: Option<Value>) -> i32 {
         &[("backup_mutating_ops_checked", 200), ("delete_mutating_ops_checked", 20), ("interrupted_or_torn_backups", 5), ("race_schedules_run", 50), ("races_on_the_same_band_id", 5), ("steps_on_archives_with_more_than_10000_hunks_in_a_band", 3)]
     };
     run.finish(
-        "part 1: histories as in C02, with backups killed at a random operation incl. torn writes, then resumed; the interceptor records for every mutating storage operation the actor, verb, write mode, payload hash and the pre/post state of the target read directly from disk; rules: a backup issues only create_dir and CreateNew writes, never removes, a successful write's target was absent or zero-length, a write onto a non-empty file fails and leaves it unchanged, no path is written twice, every earlier file is byte-identical afterwards (zero-length leftovers may be completed), the new band id exceeds every existing id; delete/gc removes only requested band directories, blocks that an independent reference scan of the kept bands does not reference, and GC_LOCK; one history (backup, change, backup, gc, delete newest, gc) runs on a tree of 10 040 files with one entry per hunk, so that the kept versions have hunks in two index subdirectories. part 2: two concurrent backups of differing sources under the deterministic scheduler (all schedules with <=1 preemption, a grid / all of 2 preemptions, random 3-6 switches): same rules on the merged log, each band directory written by one actor only, same id chosen by both => exactly one returns Ok, every complete version whose backup reported no error restores its own source. Distinct = history text / grant sequence.",
+        "part 1: histories as in C02, with backups killed at a random operation incl. torn writes, then resumed; the interceptor records for every mutating storage operation the actor, verb, write mode, payload hash and the pre/post state of the target read directly from disk; rules: a backup issues only create_dir and CreateNew writes, never removes, a successful write's target was absent or zero-length, a write onto a non-empty file fails and leaves it unchanged, no path is written twice, every earlier file is byte-identical afterwards (zero-length leftovers may be completed), the new band id exceeds every existing id; delete/gc removes only requested band directories, blocks that an independent reference scan of the kept bands does not reference, and its own GC_LOCK (with someone else's GC_LOCK in place a delete, gc or dry run must leave every file, that lock included, as it is); one history (backup, change, backup, gc, delete newest, gc) runs on a tree of 10 040 files with one entry per hunk, so that the kept versions have hunks in two index subdirectories. part 2: two concurrent backups of differing sources under the deterministic scheduler (all schedules with <=1 preemption, a grid / all of 2 preemptions, random 3-6 switches): same rules on the merged log, each band directory written by one actor only, same id chosen by both => exactly one returns Ok, every complete version whose backup reported no error restores its own source. Distinct = history text / grant sequence.",
         &["pre/post states are read while the issuing actor is the only one running", "schedules beyond the preemption bound are sampled"],
         Some(false),
         needs,
